@@ -72,6 +72,15 @@ def e2e_case(args):
     lines = []
     expect = []
     probe_id = 0
+    # guarded headers: the compiler memoises (path -> guard macro) to skip re-reading; the memo must still be checked against the macro table
+    nh = rng.choice([0, 0, 1, 2, 3])
+    hdrs = []
+    for h in range(nh):
+        hp = os.path.join(work, 'gh%d_%d.h' % (idx, h))
+        g = 'GUARD_%d_%d' % (idx, h)
+        with open(hp, 'w') as f:
+            f.write('#ifndef %s\n#define %s\nP0 H %d\n#endif\n' % (g, g, h))
+        hdrs.append((hp, g, h))
     nops = rng.choice([10, 30, 80, 200])
     for step in range(nops):
         r = rng.random()
@@ -85,6 +94,22 @@ def e2e_case(args):
         elif r < 0.7:
             lines.append('#undef %s' % nm)
             model.pop(nm, None)
+        elif r < 0.78 and hdrs:
+            hp, g, h = rng.choice(hdrs)
+            act = rng.random()
+            if act < 0.5:
+                lines.append('#include "%s"' % hp)
+                if g not in model:
+                    expect.append('P0 H %d' % h)
+                    model[g] = ''
+            elif act < 0.8:
+                lines.append('#undef %s' % g)
+                model.pop(g, None)
+            else:
+                if g in model:
+                    lines.append('#undef %s' % g)
+                lines.append('#define %s 1' % g)
+                model[g] = '1'
         elif r < 0.8 and extra:
             # table growth: define a burst of unrelated names
             for e in extra:
@@ -106,16 +131,17 @@ def e2e_case(args):
     with open(path, 'w') as f:
         f.write(src)
     rc, o, e = core.sh([cc, '-E', path] + cmd, env=core.SAN_ENV, timeout=60)
-    try:
-        os.unlink(path)
-    except OSError:
-        pass
+    for f in [path] + [h[0] for h in hdrs]:
+        try:
+            os.unlink(f)
+        except OSError:
+            pass
     def norm(l):
         p = l.strip().split(None, 2)
         return ' '.join(p[:2] + [''.join(p[2].split())] if len(p) > 2 else p)
     # the -E printer may break a line in front of a token produced by a dynamic macro: records are delimited by the P<n> markers
     text = ' '.join(o.decode('utf-8', 'replace').split())
-    got = [norm(x) for x in re.split(r'(?=\bP\d+ [DU]\b)', text) if x.strip()]
+    got = [norm(x) for x in re.split(r'(?=\bP\d+ [DUH]\b)', text) if x.strip()]
     expect = [norm(l) for l in expect]
     got = [g if not (i < len(expect) and expect[i].endswith(' D *') and g.startswith(expect[i][:-2])) else expect[i] for i, g in enumerate(got)]
     ok = (rc == 0 and got == expect)
